@@ -217,6 +217,10 @@ def coherence_oracle(ctx):
                     if (first is None) != (not ms) or (first is not None and first.span != ms[0].span):
                         bad = "search is not the first finditer result"
                     body = ast.parse(src).body
+                    if not body:  # a module of comments only: nothing can match at "the first statement"
+                        if pm.match(pat, src) is not None or pm.fullmatch(pat, src) is not None:
+                            bad = "match() / fullmatch() succeed on a module without statements"
+                        raise StopIteration
                     first_stmt = core.get_charnos(body[0], src)
                     mt = pm.match(pat, src)
                     want_match = any(m.start == first_stmt.start for m in ms)
@@ -227,6 +231,8 @@ def coherence_oracle(ctx):
                     want_full = any(m.start == first_stmt.start and m.end == last_stmt.end for m in ms)
                     if (fm is not None) != want_full:
                         bad = "fullmatch() disagrees with 'some match spans the whole module body'"
+                except StopIteration:
+                    pass
                 except Exception as ex:  # noqa: BLE001
                     bad = f"re-like API raised {ex!r}"
             if bad:
